@@ -160,7 +160,7 @@ def revive(case: Case) -> Case:
     if case.payload is not None:
         return case
     s = G.parse_sexp(case.line)
-    if s[0] == "sched":
+    if s[0] in ("sched", "sharedsub"):
         return case
     d = {p[0]: p[1:] for p in s[1:]}
     fake = G.parse_query("(q (sel) (objs " + " ".join(_unparse(o) for o in d["objs"]) + ") (doms " +
@@ -178,6 +178,8 @@ def _unparse(s) -> str:
 
 
 def nontrivial(case: Case, spec: str) -> bool:
+    if case.line == "(sharedsub)":
+        return False
     if case.line.startswith("(sched"):
         return any(t.isdigit() for t in spec.split()) and case.line.count("(start") >= 2
     return "(" in spec and spec.count(";") >= 1
@@ -263,8 +265,22 @@ def _run_multi(p) -> str:
     return " ; ".join(outs)
 
 
+def _shared_sub() -> str:
+    """F-C03-3: constructing a second query over a shared sub-expression node changes the first query's result"""
+    from krrood.entity_query_language.entity import let, entity
+    from krrood.entity_query_language.quantify_entity import an
+    objs = [G.P(i, 0, {"f": f}) for i, f in enumerate([True, False, False])]
+    x = let(object, objs, name="x")
+    xf = x.f
+    q1 = an(entity(x, xf))
+    q2 = an(entity(x, xf == False))  # noqa: E712,F841  (construction only)
+    return "[" + " ".join(G.show_row((r,)) for r in q1.evaluate()) + "]"
+
+
 def _one(case: Case) -> str:
     try:
+        if case.line == "(sharedsub)":
+            return _shared_sub()
         if case.line.startswith("(sched"):
             return _run_sched(case.line)
         return _run_multi(revive(case).payload)
